@@ -18,8 +18,10 @@ TECHNIQUE = ("Lean 4 theorems over the real-number reading of a twin model (brid
 RULE = ("signal length N in 2..65 (odd and even, every length hit in the thorough tier), dt = 10^U(-10,0), grid "
         "offset U(-1e3,1e3)*N*dt, values = dense normal / sparse impulses / constant / ramp times 10^U(-6,6); "
         "responses from the family const, whole-sample delay, fractional delay, scaled delay, low-pass, high-pass, "
-        "one-pole RC (complex), one-sided complex, gaussian; vectorised or scalar-only (TypeError / ValueError "
-        "on arrays); force_real in {False, True}; Signal and FunctionSignal (1..3 stacked filters). A case is "
+        "one-pole RC (complex), one-sided complex, gaussian, sinc and |f|/(|f|+f0) with an `if f == 0: return <int>` "
+        "guard; vectorised (float, int or bool arrays) or scalar-only (TypeError / ValueError on arrays) with the "
+        "RETURN TYPE varying with f: int at DC / float elsewhere, float at DC / complex elsewhere, float where real, "
+        "bool, numpy scalars, 0-d arrays, Python complex; force_real in {False, True}; Signal and FunctionSignal (1..3 stacked filters). A case is "
         "non-trivial when the signal is not identically zero; distinct = distinct (N, dt, offset, values, "
         "response, force_real, class) tuples. Search: N up to 4096 (linearity, homogeneity, identity, offset, "
         "shift-invariance, Hermitian symmetrisation, energy, delay/drop) on the implementation alone")
@@ -70,19 +72,84 @@ def resp_fn(kind, p1, p2, scalar_only=None):
     elif kind == "gauss":
         vec = lambda f: np.exp(-(np.asarray(f) / p1) ** 2)
         sca = lambda f: math.exp(-(f / p1) ** 2)
+    elif kind == "sinc":
+        # the usual division guard: a Python int at DC, floats elsewhere
+        vec = lambda f: np.sinc(np.asarray(f) * p1)
+        sca = lambda f: 1 if f == 0 else math.sin(math.pi * f * p1) / (math.pi * f * p1)
+    elif kind == "invf":
+        vec = lambda f: np.abs(f) / (np.abs(f) + p1)
+        sca = lambda f: 0 if f == 0 else abs(f) / (abs(f) + p1)
     else:
         raise ValueError(kind)
-    if scalar_only is None:
-        fn = vec
+    mode, _, rtype = (scalar_only or "").partition(":")
+    rtype = rtype or None
+    if mode in ("", "vec"):
+        if rtype is None:
+            fn = vec
+        else:
+            def fn(f):
+                r = np.asarray(vec(f))
+                if np.iscomplexobj(r) and np.all(r.imag == 0):
+                    r = r.real
+                if not np.iscomplexobj(r) and np.all(r == np.round(r)):
+                    if rtype == "bool" and np.all((r == 0) | (r == 1)):
+                        return r.astype(bool)
+                    return r.astype(int)
+                return r
     else:
-        exc = {"TypeError": TypeError, "ValueError": ValueError}[scalar_only]
+        exc = {"TypeError": TypeError, "ValueError": ValueError}[mode]
 
         def fn(f):
-            if isinstance(f, np.ndarray):
+            if isinstance(f, np.ndarray) and f.ndim > 0:
                 raise exc("response function accepts one frequency at a time")
-            return sca(float(f))
+            return retype(sca(float(f)), float(f), rtype)
     fn.__name__ = "resp_%s" % kind
     return fn
+
+
+RTYPES = [None, None, "int_dc", "float_dc", "realfloat", "bool", "npscalar", "zerod", "pycomplex"]
+
+
+def retype(v, f, rtype):
+    """the same value in another Python/numpy TYPE (the type may depend on the frequency)"""
+    if rtype is None:
+        return v
+    c = complex(v)
+    real = c.imag == 0
+    integral = real and c.real == int(c.real)
+    if rtype == "int_dc":
+        return int(c.real) if (f == 0 and integral) else v
+    if rtype == "float_dc":
+        return float(c.real) if (f == 0 and real) else c
+    if rtype == "realfloat":
+        return float(c.real) if real else c
+    if rtype == "bool":
+        return bool(c.real) if (real and c.real in (0.0, 1.0)) else v
+    if rtype == "npscalar":
+        if f == 0 and integral:
+            return np.int64(int(c.real))
+        return np.float64(c.real) if real else np.complex128(c)
+    if rtype == "zerod":
+        return np.array(v)
+    if rtype == "pycomplex":
+        return c
+    raise ValueError(rtype)
+
+
+def random_scalar_only(rng):
+    """None (vectorised) | 'vec:int' | 'vec:bool' | '<TypeError|ValueError>[:<return type variant>]'"""
+    q = rng.random()
+    if q < 0.4:
+        return None
+    if q < 0.5:
+        return rng.choice(["vec:int", "vec:bool"])
+    so = rng.choice(["TypeError", "ValueError"])
+    rt = rng.choice(RTYPES)
+    return so if rt is None else "%s:%s" % (so, rt)
+
+
+def is_vectorised(so):
+    return (not so) or so.startswith("vec")
 
 
 def resp_max(kind, p1, p2):
@@ -91,14 +158,14 @@ def resp_max(kind, p1, p2):
 
 def filt_toks(flt):
     kind, p1, p2, fr, so = flt
-    return "%d %d %s %s" % (1 if fr else 0, 0 if so else 1, kind, fw.fl([p1, p2]))
+    return "%d %d %s %s" % (1 if fr else 0, 1 if is_vectorised(so) else 0, kind, fw.fl([p1, p2]))
 
 
 def random_response(rng, n, dt, allow_gain=True):
     """-> (kind, p1, p2)"""
     nyq = 0.5 / dt
     kind = rng.choice(["const", "const", "delay", "delay", "fdelay", "cdelay", "lowpass", "highpass", "rc",
-                       "onesided", "gauss"])
+                       "onesided", "gauss", "sinc", "invf"])
     if kind == "const":
         c = rng.choice([(1.0, 0.0), (0.5, 0.0), (0.0, 1.0), (-1.0, 0.0), (rng.uniform(-2, 2), rng.uniform(-2, 2))])
         if not allow_gain:
@@ -123,6 +190,10 @@ def random_response(rng, n, dt, allow_gain=True):
         if not allow_gain:
             c = (c[0] * 0.7, c[1] * 0.7)
         return ("onesided", c[0], c[1])
+    if kind == "sinc":
+        return ("sinc", rng.uniform(0.5, 4) * dt, 0.0)
+    if kind == "invf":
+        return ("invf", rng.uniform(0.05, 1) * nyq, 0.0)
     return ("gauss", rng.uniform(0.1, 2) * nyq, 0.0)
 
 
@@ -163,6 +234,7 @@ def correspondence(run):
     rng = run.rng
     reqs, expect, tols, descs = [], [], [], []
     ncases = run.scale(600, 6000)
+    crashed = 0
     lengths = list(range(2, 66))
     for i in range(ncases):
         n = lengths[i % len(lengths)] if run.thorough() or i < 128 else rng.randint(2, 65)
@@ -174,7 +246,7 @@ def correspondence(run):
         dte = float(times[1] - times[0])
         kind, p1, p2 = random_response(rng, n, dte)
         fr = rng.random() < 0.5
-        so = rng.choice([None, None, "TypeError", "ValueError"])
+        so = random_scalar_only(rng)
         cls = rng.choice(["Signal", "Signal", "FunctionSignal"])
         vmax = float(np.max(np.abs(vals)))
         run.count("N_odd" if n % 2 else "N_even")
@@ -184,7 +256,13 @@ def correspondence(run):
         run.count("cls_" + cls)
         if cls == "Signal":
             sig = ps.Signal(times, vals)
-            sig.filter_frequencies(resp_fn(kind, p1, p2, so), force_real=fr)
+            try:
+                sig.filter_frequencies(resp_fn(kind, p1, p2, so), force_real=fr)
+            except Exception as e:      # noqa: BLE001
+                crashed += 1
+                run.note_broken("correspondence: filter_frequencies raised %r for N=%d dt=%r response=%s %s "
+                                "force_real=%s" % (e, n, dte, kind, so, fr))
+                continue
             out = [float(v) for v in sig.values]
             reqs.append("filter %s %d %s %s" % (filt_toks((kind, p1, p2, fr, so)), n, fw.fl(times), fw.fl(vals)))
             tols.append(1e-9 * vmax * max(1.0, resp_max(kind, p1, p2)))
@@ -193,11 +271,17 @@ def correspondence(run):
             flts = [(kind, p1, p2, fr, so)]
             for _ in range(rng.randint(0, 2)):
                 k2, q1, q2 = random_response(rng, n, dte)
-                flts.append((k2, q1, q2, rng.random() < 0.5, rng.choice([None, "TypeError", "ValueError"])))
+                flts.append((k2, q1, q2, rng.random() < 0.5, random_scalar_only(rng)))
             fs = ps.FunctionSignal(times, lambda t, _t=times.copy(), _v=vals.copy(): np.interp(t, _t, _v))
-            for (k2, q1, q2, fr2, so2) in flts:
-                fs.filter_frequencies(resp_fn(k2, q1, q2, so2), force_real=fr2)
-            out = [float(v) for v in fs.values]
+            try:
+                for (k2, q1, q2, fr2, so2) in flts:
+                    fs.filter_frequencies(resp_fn(k2, q1, q2, so2), force_real=fr2)
+                out = [float(v) for v in fs.values]
+            except Exception as e:      # noqa: BLE001
+                crashed += 1
+                run.note_broken("correspondence: FunctionSignal filters raised %r for N=%d dt=%r filters=%s"
+                                % (e, n, dte, flts))
+                continue
             reqs.append("apply %s %d %s %d %s" % (fw.fl([dte]), len(flts), " ".join(filt_toks(f) for f in flts),
                                                  n, fw.fl(vals)))
             g = 1.0
@@ -214,7 +298,12 @@ def correspondence(run):
             reqs.append("freqs %d %s" % (m, fw.fl([dte])))
             expect.append([float(f) for f in freqs]); tols.append(0.0)
             descs.append({"op": "freqs", "M": m, "dt": dte})
-            r = ps.Signal._get_filter_response(freqs, resp_fn(kind, p1, p2, so), fr)
+            try:
+                r = ps.Signal._get_filter_response(freqs, resp_fn(kind, p1, p2, so), fr)
+            except Exception as e:      # noqa: BLE001
+                crashed += 1
+                run.note_broken("correspondence: _get_filter_response raised %r for %s %s" % (e, kind, so))
+                continue
             flat = []
             for z in r:
                 flat += [float(z.real), float(z.imag)]
@@ -238,7 +327,7 @@ def correspondence(run):
     # malformed requests must be rejected, never defaulted
     bad = ["filter 1 1 nosuch 0 0 2 0 0 0 0", "filter 2 1 const 0 0 1 0 0", "freqs x 1", "apply 0 1"]
     replies = fw.run_driver("C05", reqs + bad)
-    ok = True
+    ok = crashed == 0
     for b, rp in zip(bad, replies[len(reqs):]):
         if rp != "bad-op":
             ok = False
@@ -296,6 +385,17 @@ def run_filter(ps, times, vals, fn, fr, cls="Signal"):
 
 
 def check_case(run, case):
+    """evaluate every oracle on one case dict; an exception on a valid input is a failure of its own"""
+    try:
+        _check_case(run, case)
+    except Exception as e:      # noqa: BLE001 - the implementation must not raise on these inputs
+        c = dict(case)
+        c["oracle"] = "crash"
+        run.fail_input("filter-crash", c, observed=repr(e)[:300], expected="filtered values",
+                       what="filter_frequencies raised on a valid signal / response")
+
+
+def _check_case(run, case):
     """evaluate every oracle on one case dict; reports failures through run.fail_input"""
     ps = pyrex_mod()
     n, dt, t0 = case["N"], case["dt"], case["t0"]
@@ -321,6 +421,14 @@ def check_case(run, case):
     if len(out) != n or not np.all(np.isfinite(out)):
         fail("shape", [len(out)], [n], "filtered values have the wrong length or are not finite")
         return
+    if which in ("all", "fallback") and so:
+        # the same response, vectorised and uniformly typed: the scalar fall-back / the return type must not matter
+        ref = run_filter(ps, times, x, resp_fn(kind, p1, p2, None), fr, cls)
+        d = float(np.max(np.abs(ref - out)))
+        if d > 4 * tol:
+            j = int(np.argmax(np.abs(ref - out)))
+            fail("fallback", [j, float(out[j])], [j, float(ref[j])],
+                 "scalar-only / differently typed response gives another result than the vectorised response")
     if which in ("all", "linear"):
         g = np.random.default_rng(case.get("vseed", 1) + 7919)
         y = g.standard_normal(n) * vmax
@@ -430,7 +538,7 @@ def gen_case(run, nmax, i):
     case = {"N": n, "dt": dt, "t0": t0, "force_real": rng.random() < 0.5, "vseed": rng.getrandbits(32),
             "style": rng.choice(["dense", "dense", "front", "sparse"]), "front": rng.uniform(0.1, 0.9),
             "scale": 10 ** rng.uniform(-6, 6), "cls": rng.choice(["Signal", "Signal", "Signal", "FunctionSignal"]),
-            "scalar_only": rng.choice([None, None, None, "TypeError", "ValueError"]) if n <= 600 else None}
+            "scalar_only": random_scalar_only(rng) if n <= 600 else rng.choice([None, "vec:int"])}
     if i % 3 == 0:
         # whole-sample delay, including delays beyond the window (K1 territory)
         q = rng.random()
